@@ -113,6 +113,21 @@ def _transformations():
         ('add_indirect_effect', lambda m: pm.add_indirect_effect(m, 'linear')),
         ('add_metabolite', lambda m: pm.add_metabolite(m)),
         ('set_direct_effect(emax)', lambda m: pm.set_direct_effect(m, 'emax')),
+        ('add_derivative', lambda m: pm.add_derivative(m)),
+        ('add_derivative(ETA_CL)', lambda m: pm.add_derivative(m, with_respect_to=['ETA_CL'])),
+        ('set_proportional_error_model(log)', lambda m: pm.set_proportional_error_model(m, data_trans='log(Y)')),
+        ('init(numpy floats)', lambda m: pm.set_initial_estimates(
+            m, {'POP_CL': __import__('numpy').float64(0.005), 'POP_VC': __import__('numpy').float32(1.5)})),
+        ('upper(numpy int)', lambda m: pm.set_upper_bounds(m, {'POP_VC': __import__('numpy').int64(20)})),
+        ('joint of 3 etas', lambda m: pm.create_joint_distribution(pm.add_iiv(m, 'S1', 'exp'))),
+        ('set_dvid(FA1)', lambda m: pm.set_dvid(m, 'FA1')),
+        ('add_pd_iiv', lambda m: pm.add_pd_iiv(pm.set_direct_effect(m, 'linear'))),
+        ('set_tmdd(qss)', lambda m: pm.set_tmdd(m, 'qss')),
+        ('set_baseline_effect', lambda m: pm.set_baseline_effect(m)),
+        ('add_iov(joint)', lambda m: pm.add_iov(m, 'FA1', ['CL', 'VC'], distribution='joint')),
+        ('unit(WGT)', lambda m: m.replace(datainfo=m.datainfo.set_column(m.datainfo['WGT'].replace(unit='kg')))),
+        ('descriptor(WGT)', lambda m: m.replace(datainfo=m.datainfo.set_column(
+            m.datainfo['WGT'].replace(descriptor='body weight')))),
         ('categorical APGR', lambda m: m.replace(datainfo=m.datainfo.set_column(
             m.datainfo['APGR'].replace(type='covariate', scale='ordinal', categories=tuple(
                 sorted(set(int(x) for x in m.dataset['APGR']))))))),
@@ -674,7 +689,7 @@ def main(argv):
             hashseeds = ['0', '1', '2', '42', '1234', '99999', str(7919 * args.seed % 4294967295), '777']
             chunks = 2
         else:
-            count = args.count or 120
+            count = args.count or 180
             hashseeds = ['0', '1', str((7919 * args.seed + 13) % 4294967295)]
             chunks = 5
         outs, errs = run_batch(args.seed, count, hashseeds, scratch, per_node_chunks=chunks)
